@@ -37,3 +37,11 @@ Lemma tie_generated_quote_doit : forall (src : Bytes.bytes) (out : list Z) (outl
     (CGen.C_quote_doit.run (S (List.length src)) out outlen (Z.of_nat (List.length out)) (GenCommon.zs src) (Z.of_nat (List.length src)) 1%Z)
   = Some (1%Z, Z.of_nat (List.length (Quote.doit src)), GenCommon.zs (Quote.doit src)).
 Proof. exact Gen_addr.gen_quote_doit_eq. Qed.
+(* quote_need() (when a local part needs quoting) as generated from today's quote.c = the model's quote_need, with the ok[] table
+   of tie_quote_ok; and it never indexes ok[] outside its 128 cells, whatever bytes the address has *)
+From NQ Require Tie.Gen_quote.
+Lemma tie_generated_quote_need : forall s : Bytes.bytes, GenCommon.bytes_ok s -> (Z.of_nat (List.length s) < 2 ^ 31)%Z ->
+  GenCommon.retval (CGen.C_quote_need.run (S (S (List.length s))) (GenCommon.zs s) 0%Z (Z.of_nat (List.length s)) Gen_quote.ok_table) = Some (MiniC.b2z (Quote.quote_need s)).
+Proof. exact Gen_quote.gen_quote_need_eq. Qed.
+Lemma tie_ok_table_is_todays_table : Gen_quote.ok_table = Params_gen.quote_ok.
+Proof. vm_compute. reflexivity. Qed.
